@@ -17,6 +17,7 @@ import (
 	"go.opentelemetry.io/collector/consumer"
 	"go.opentelemetry.io/collector/pdata/plog"
 	"go.opentelemetry.io/collector/pdata/pmetric"
+	"go.opentelemetry.io/collector/pdata/ptrace"
 	"go.opentelemetry.io/collector/processor/batchprocessor/internal/metadata"
 	"go.opentelemetry.io/collector/processor/processortest"
 )
@@ -63,6 +64,10 @@ func (s *vSink) ConsumeLogs(ctx context.Context, ld plog.Logs) error {
 	s.add(ctx, vDumpLogs(ld))
 	return nil
 }
+func (s *vSink) ConsumeTraces(ctx context.Context, td ptrace.Traces) error {
+	s.add(ctx, vDumpTraces(td))
+	return nil
+}
 func (s *vSink) ConsumeMetrics(ctx context.Context, md pmetric.Metrics) error {
 	s.add(ctx, vDumpMetrics(md))
 	return nil
@@ -82,6 +87,7 @@ func (s *vSink) flush(out *vOut) {
 // label) with one producer, so that the emitted batches are deterministic and compared exactly with the model.
 func TestVerifC17ProcLogs(t *testing.T)    { vRunProc(t, "logs") }
 func TestVerifC17ProcMetrics(t *testing.T) { vRunProc(t, "metrics") }
+func TestVerifC17ProcTraces(t *testing.T)  { vRunProc(t, "traces") }
 
 func vRunProc(t *testing.T, kind string) {
 	out := vOpen(t)
@@ -124,6 +130,7 @@ func vRunProc(t *testing.T, kind string) {
 			set := processortest.NewNopSettings(metadata.Type)
 			var consumeLogs func(context.Context, plog.Logs) error
 			var consumeMetrics func(context.Context, pmetric.Metrics) error
+			var consumeTraces func(context.Context, ptrace.Traces) error
 			var shutdown func(context.Context) error
 			if kind == "logs" {
 				p, err := newLogsBatchProcessor(set, sink, cfg)
@@ -134,6 +141,15 @@ func vRunProc(t *testing.T, kind string) {
 					t.Fatal(err)
 				}
 				consumeLogs, shutdown = p.ConsumeLogs, p.Shutdown
+			} else if kind == "traces" {
+				p, err := newTracesBatchProcessor(set, sink, cfg)
+				if err != nil {
+					t.Fatal(err)
+				}
+				if err := p.Start(context.Background(), componenttest.NewNopHost()); err != nil {
+					t.Fatal(err)
+				}
+				consumeTraces, shutdown = p.ConsumeTraces, p.Shutdown
 			} else {
 				p, err := newMetricsBatchProcessor(set, sink, cfg)
 				if err != nil {
@@ -192,6 +208,10 @@ func vRunProc(t *testing.T, kind string) {
 					ld := g.Logs()
 					out.Linef("op arrive k=%s | %s", key, vDumpLogs(ld))
 					err = consumeLogs(ctx, ld)
+				} else if kind == "traces" {
+					td := g.Traces()
+					out.Linef("op arrive k=%s | %s", key, vDumpTraces(td))
+					err = consumeTraces(ctx, td)
 				} else {
 					m := g.Metrics()
 					out.Linef("op arrive k=%s | %s", key, vDumpMetrics(m))
